@@ -21,9 +21,10 @@
        IP pool passthru (this directory, Passthru.v)          - c01_history_independent_pools: NO hypothesis left
    Nodes that enter ONLY through up_hf (no Coq model here; they are exercised by the correspondence run against the
    real graph): ValidationFilter, dispatchers and local/remote endpoint filters, ActiveRulesCalculator, RuleScanner,
-   PolicyResolver + PolicySorter (C03: the pinned code is NOT history-free, see known-findings stale-policy-sorter-entry
-   and deleted-tier-keeps-default-action), L3RouteResolver (C43 proves order independence for node and pool updates
-   only; the pinned code is NOT history-free for block updates: known finding block-update-leaves-contained-routes-stale),
+   PolicyResolver + PolicySorter (C03; NOT history-free as found: stale-policy-sorter-entry, repaired in /repo by
+   f345ed5, and deleted-tier-keeps-default-action, open), L3RouteResolver (C43 proves order independence for node and
+   pool updates only; NOT history-free for block updates: known finding block-update-leaves-contained-routes-stale,
+   modelled in L3Reflag.v with the repaired variant proved history-free),
    VXLANResolver, EncapsulationResolver, DataplanePassthru (host metadata, service accounts, namespaces, wireguard),
    ProfileDecoder, CIDR trie (C36 proves the trie = the set of stored prefixes).
    Excluded from the generated universe and from the claim: LiveMigrationCalculator, IstioCalculator,
@@ -31,7 +32,7 @@
 From stdpp Require Import gmap.
 From Verif.Common Require Import Sync.
 From Verif.C02 Require Import Model Spec.
-From Verif.C01 Require Import Model Spec Compose Instances Passthru L3Reflag.
+From Verif.C01 Require Import Model Spec Compose Instances Passthru L3Reflag L3Meets.
 From Verif.C01 Require InstC04 InstC07.
 
 (* --- the graph model: a synchronous producer->consumer composition runs the consumer on everything the producer emitted *)
@@ -152,6 +153,16 @@ Theorem c01_l3_block_reflag_refuted :
   bool_decide (net RT (n_outs (l3_node (fun _ => 5%N) true) l3_witness_a) = net RT (n_outs (l3_node (fun _ => 5%N) true) l3_witness_b)) = true.
 Proof. exact l3_pinned_refuted. Qed.
 Print Assumptions c01_l3_block_reflag_refuted.
+
+(* the oracle the correspondence run applies to the REAL resolver's route table (Spec.check_l3: model agreement and
+   table = route_of (final inputs)) accepts every run of the repaired model, for every sequence of block values,
+   block deletions and local workload updates *)
+Theorem c01_l3_model_meets_spec : forall (ops : list gop),
+  check_l3 (mkL3Case true ops
+              (map_to_list (net RT (n_outs (l3_node blk8 true) (g_translate (∅, ∅) ops)) : gmap (N + N) route)) true)
+  = (true, true).
+Proof. exact l3_model_meets_spec. Qed.
+Print Assumptions c01_l3_model_meets_spec.
 
 (* --- node lemmas imported from the properties that own the node models *)
 Module IPSetIndex.
